@@ -201,7 +201,11 @@ where
         let inner = self.inner.as_mut().unwrap();
         let result = inner.write_all(&BGZF_EOF);
 
-        self.position += BGZF_EOF.len() as u64;
+        // The EOF block counts toward the position only when it was written.
+        if result.is_ok() {
+            self.position += BGZF_EOF.len() as u64;
+        }
+
         self.is_finished = result.is_ok();
 
         result
@@ -296,6 +300,39 @@ mod tests {
             writer.virtual_position(),
             VirtualPosition::try_from((writer.get_ref().len() as u64, 0))?
         );
+
+        Ok(())
+    }
+
+    #[test]
+    fn test_try_finish_with_failed_eof_block_write() -> io::Result<()> {
+        struct FailOnce(Vec<u8>, bool);
+
+        impl Write for FailOnce {
+            fn write(&mut self, buf: &[u8]) -> io::Result<usize> {
+                if self.1 {
+                    self.0.extend_from_slice(buf);
+                    Ok(buf.len())
+                } else {
+                    self.1 = true;
+                    Err(io::Error::from(io::ErrorKind::WouldBlock))
+                }
+            }
+
+            fn flush(&mut self) -> io::Result<()> {
+                Ok(())
+            }
+        }
+
+        let mut writer = Writer::new(FailOnce(Vec::new(), false));
+
+        assert!(writer.try_finish().is_err());
+        assert_eq!(writer.position(), 0);
+        assert_eq!(writer.virtual_position(), VirtualPosition::from(0));
+
+        writer.write_all(b"noodles")?;
+        writer.try_finish()?;
+        assert_eq!(writer.position(), writer.get_ref().0.len() as u64);
 
         Ok(())
     }
